@@ -45,3 +45,5 @@ def run(check):
     check.run_rule('C19.R7', lambda c: rule_resolution_order(c, 'C19.R7'))
     from ..rules_derived import rule_narrowed_kind_compared
     check.run_rule('C19.R6b', lambda c: rule_narrowed_kind_compared(c, 'C19.R6'))
+    from ..rules_mask import rule_reserved_names_complete
+    check.run_rule('C19.R2r', lambda c: rule_reserved_names_complete(c, M.mask(), 'C19.R2'))
